@@ -878,16 +878,17 @@ def set_digits(r, sizes):
     return d
 
 
-def struct_relation(rng, sizes, pal=None):
+def struct_relation(rng, sizes, pal=None, types=None):
     """a relation that is a product of per-level relations, each level being the
     identity (x' = x), unconstrained (any x -> any x'), or an arbitrary matrix;
     the value of an entry depends only on the digits of the arbitrary levels.
     These are the relations whose diagrams skip levels (identity-reduced: identity
     levels; fully-reduced: unconstrained levels)."""
     K = len(sizes)
-    types = [rng.choice(['id', 'id', 'full', 'rand']) for _ in range(K)]
-    if 'rand' not in types and rng.random() < 0.7:
-        types[rng.randrange(K)] = 'rand'
+    if types is None:
+        types = [rng.choice(['id', 'id', 'full', 'rand']) for _ in range(K)]
+        if 'rand' not in types and rng.random() < 0.7:
+            types[rng.randrange(K)] = 'rand'
     mats = []
     for k, s in enumerate(sizes):
         if types[k] == 'id':
@@ -912,11 +913,12 @@ def struct_relation(rng, sizes, pal=None):
     return T
 
 
-def lift_table(rng, sizes, maker):
+def lift_table(rng, sizes, maker, dep=None):
     """a function over `sizes` that depends only on a random subset of the levels:
     maker(npts) builds a table over the reduced shape, which is then extended"""
     K = len(sizes)
-    dep = [k for k in range(K) if rng.random() < 0.5]
+    if dep is None:
+        dep = [k for k in range(K) if rng.random() < 0.5]
     sub = [sizes[k] for k in dep]
     base = maker(points_of(sub, False))
     T = []
@@ -967,11 +969,11 @@ def plan_c09(tier, seed, rng):
         setups.append(('mti_s', (rng.choice('FQ'), rng.choice('FQ')), 'mti_r', rr, ['VM_MULTIPLY', 'MV_MULTIPLY']))
         setups.append(('mtr_s', (rng.choice('FQ'), rng.choice('FQ')), 'mtr_r', rr, ['VM_MULTIPLY', 'MV_MULTIPLY']))
     for (sk, rules, rk, rr, ops) in setups:
-        shapes = [[2], [3]] + ([[2, 2], [3, 2], [2, 3], [4, 2], [2, 2, 2], [3, 2, 2]] if tier == 'thorough' else rng.sample([[3, 2], [2, 3], [2, 2, 2], [4, 2], [3, 2, 2]], 2))
+        shapes = [[2], [3]] + ([[2, 2], [3, 2], [2, 3], [4, 2], [2, 2, 2], [3, 2, 2]] if tier == 'thorough' else [rng.choice([[3, 2], [4, 2]])] + rng.sample([[2, 3], [2, 2, 2], [3, 2, 2]], 1))
         for sizes in shapes:
             ns = points_of(sizes, False)
             cases = []
-            reps = 40 if tier == 'thorough' else 16
+            reps = 40 if tier == 'thorough' else 28
             if sizes == [2] and sk == 'mtb_s':
                 # exhaustive: every set x every relation
                 for s in range(4):
@@ -994,11 +996,39 @@ def plan_c09(tier, seed, rng):
                     cases.append((T, R, ops))
             scripts.append(('g%03d' % n, rel_script(rng, sizes, sk, rules, rk, rr, cases, clear=(n % 3 == 0))))
             n += 1
+    # the level-skipping family: operand and relation both ignore the upper
+    # levels (set: independent of them, in a fully-reduced forest; relation:
+    # identity or unconstrained on them), over shapes whose upper variables are
+    # smaller than the lower ones, so that a recursion entered at level L reaches
+    # nodes at a level of a different size
+    skip = [('mtb_s', 'mtb_r', IMG), ('mti_s', 'mtb_r', IMG), ('evp_s', 'mtb_r', IMG),
+            ('mti_s', 'mti_r', ['VM_MULTIPLY', 'MV_MULTIPLY'])]
+    for (sk, rk, ops) in skip:
+        for rr in ['I', 'F']:
+            sizes = rng.choice([[4, 2], [3, 2], [3, 2, 2], [3, 4, 2]])
+            K = len(sizes)
+            cases = []
+            for _ in range(24 if tier == 'thorough' else 10):
+                low = rng.randrange(1, K)          # levels 1..low are the ones that matter
+                if sk == 'mtb_s':
+                    mk = lambda npts: rand_table(rng, sk, npts)
+                elif 'MULTIPLY' in ops[0]:
+                    mk = lambda npts: rand_table(rng, sk, npts, [-3, 1, 2, 5], p_default=0.3)
+                else:
+                    mk = lambda npts: dist_table(rng, sk, npts)
+                T = lift_table(rng, sizes, mk, dep=list(range(low)))
+                up = 'id' if rr == 'I' else rng.choice(['id', 'full'])
+                types = ['rand'] * low + [rng.choice([up, up, 'rand']) if k > low else up for k in range(low, K)]
+                pal = None if rk == 'mtb_r' else [-2, 1, 3, 4]
+                cases.append((T, struct_relation(rng, sizes, pal, types=types), ops))
+            scripts.append(('k%03d' % n, rel_script(rng, sizes, sk, ('F', 'F' if sk == 'mti_s' and ops is IMG else rng.choice('FQ')), rk, rr, cases, clear=(n % 2 == 0))))
+            n += 1
     return dict(
         scripts=scripts, validators=[API], tags={'C09', 'HELD'},
         rule='POST_IMAGE / PRE_IMAGE for boolean sets (every set x every relation over <2>; seeded pairs over <3>, <2,2>, <3,2>, <2,3>, <2,2,2>), '
              'MT-integer distance functions (result forest fully reduced) and EV+ distance functions, relation forests identity-, fully- and quasi-reduced; '
-             'VM_MULTIPLY / MV_MULTIPLY for integer and (dyadic) real vectors and matrices; relation families: sparse, dense, self-loops, dead ends; '
+             'VM_MULTIPLY / MV_MULTIPLY for integer and (dyadic) real vectors and matrices; relation families: sparse, dense, self-loops, dead ends, per-level products (identity / unconstrained / arbitrary levels); '
+             'operands that ignore some levels; a level-skipping family over non-uniform shapes <4,2>, <3,2>, <3,2,2>, <3,4,2>; '
              'operands re-read after every call; non-trivial = result not constant',
         exhaustive=False,
     )
@@ -1081,17 +1111,32 @@ def c20_script(rng, sizes, rules, rrule, cases):
     return S.text()
 
 
-def rand_event(rng, sizes):
+def rand_event(rng, sizes, top=None):
     """an event: touches a subset of the variables; on the others it is the
     identity (don't change) - built as a table"""
     K = len(sizes)
     n = points_of(sizes, False)
     touched = [k for k in range(K) if rng.random() < 0.6] or [rng.randrange(K)]
+    if top is not None:         # the highest variable the event touches
+        touched = [k for k in touched if k < top] + [top]
     # local transitions per touched variable
     local = {}
     for k in touched:
         s = sizes[k]
         local[k] = [(i, j) for i in range(s) for j in range(s) if rng.random() < 0.35] or [(0, s - 1)]
+    if K > 1 and top is None and rng.random() < 0.35:
+        # a guarded event: enabled only for some values of its top variable, which it
+        # leaves unchanged (empty rows next to a common diagonal), acting below it
+        top = rng.randrange(1, K)
+        for k in range(top + 1, K):
+            local.pop(k, None)
+        en = [i for i in range(sizes[top]) if rng.random() < 0.5] or [rng.randrange(sizes[top])]
+        if len(en) == sizes[top]:
+            en.pop(rng.randrange(len(en)))
+        local[top] = [(i, i) for i in en]
+        if not any(k < top for k in local):
+            kk = rng.randrange(top)
+            local[kk] = [(i, j) for i in range(sizes[kk]) for j in range(sizes[kk]) if rng.random() < 0.4] or [(0, sizes[kk] - 1)]
     T = [0] * (n * n)
     # enumerate pairs (x, y)
     import itertools
@@ -1119,27 +1164,62 @@ def rand_event(rng, sizes):
 def plan_c20(tier, seed, rng):
     scripts = []
     n = 0
-    shapes = [[2, 2], [3, 2]] + ([[2, 2, 2], [2, 3, 2]] if tier == 'thorough' else [])
+    shapes = [[2, 2], [3, 2], [2, 2, 2]] + ([[2, 3, 2], [3, 2, 2]] if tier == 'thorough' else [])
     for sizes in shapes:
         ns = points_of(sizes, False)
         for rrule in ['I', 'F', 'Q']:
+            if len(sizes) > 2 and rrule != 'I' and tier != 'thorough':
+                continue
             for mode in ['BYEV', 'BYLV']:
                 for split in (range(5) if mode == 'BYLV' else [0]):
                     cases = []
-                    for _ in range(12 if tier == 'thorough' else 5):
+                    for _ in range(12 if tier == 'thorough' else (10 if len(sizes) > 2 else 5)):
                         nev = rng.randint(1, 4)
                         events = [rand_event(rng, sizes) for _ in range(nev)]
                         if rng.random() < 0.2:
                             events[rng.randrange(nev)] = [0] * (ns * ns)        # an empty event
-                        T = rand_table(rng, 'mtb_s', ns)
+                        style = rng.random()
+                        if len(sizes) > 2 and style > 0.7:
+                            # one lower sub-diagram reached twice: below a node of the middle level
+                            # and by an edge that skips that level
+                            K = len(sizes)
+                            low = [rng.choice([0, 1]) for _ in range(points_of(sizes[:K - 2], False))]
+                            if not any(low):
+                                low[rng.randrange(len(low))] = 1
+                            ta, tb = rng.sample(range(sizes[K - 1]), 2)
+                            mid = rng.randrange(sizes[K - 2])
+                            T = []
+                            for r in range(ns):
+                                dg = set_digits(r, sizes)
+                                lowrank = r % len(low)
+                                inA = dg[K - 1] == ta and dg[K - 2] == mid and low[lowrank]
+                                inB = dg[K - 1] == tb and low[lowrank]
+                                T.append(1 if (inA or inB) else 0)
+                            if rng.random() < 0.7:
+                                # make sure one event is topped at the skipped level
+                                events[rng.randrange(nev)] = rand_event(rng, sizes, top=K - 2)
+                        elif style < 0.4:
+                            T = rand_table(rng, 'mtb_s', ns)
+                        elif style < 0.7:
+                            # a set that ignores some variables (skipped levels in a fully-reduced forest)
+                            T = lift_table(rng, sizes, lambda npts: rand_table(rng, 'mtb_s', npts))
+                        else:
+                            # a union of two cubes: shared nodes reached at different levels
+                            T = [0] * ns
+                            for _c in range(2):
+                                cube = [rng.choice([None, rng.randrange(sz)]) for sz in sizes]
+                                for r in range(ns):
+                                    dg = set_digits(r, sizes)
+                                    if all(c is None or c == dg[k] for k, c in enumerate(cube)):
+                                        T[r] = 1
                         cases.append((T, events, mode, split))
-                    scripts.append(('e%03d' % n, c20_script(rng, sizes, (rng.choice('FQ'), rng.choice('FQ')), rrule, cases)))
+                    scripts.append(('e%03d' % n, c20_script(rng, sizes, (('F' if len(sizes) > 2 else rng.choice('FQ')), rng.choice('FQ')), rrule, cases)))
                     n += 1
     return dict(
         scripts=scripts, validators=[API], tags={'C20', 'HELD'},
         rule='lists of 1..4 event relations over <2,2>, <3,2> (thorough: <2,2,2>, <2,3,2>): each event changes a random subset of the variables by random '
              'local transitions and leaves the others unchanged (overlapping and disjoint supports, self-loops, events whose top variable is unchanged, '
-             'empty events); random initial sets; pregen_relation by events and by levels with each of the five splitting options; relation forests '
+             'empty events, guarded events: enabled for some values of their top variable, which they leave unchanged); initial sets: random, independent of some variables, unions of two cubes; quick adds <2,2,2> with an identity-reduced relation forest and a fully-reduced set forest; pregen_relation by events and by levels with each of the five splitting options; relation forests '
              'identity-, fully- and quasi-reduced; SATURATION_FORWARD must equal the least fixed point TLC computes for the union relation and be the '
              'identical edge to REACHABLE_TRAD_NOFS on the union relation computed into the same forest; non-trivial = result not constant',
         exhaustive=False,
@@ -1838,6 +1918,32 @@ def c13_script(rng, sizes, kind, rule, heur, swap, perms, nedges=4):
     return S.text()
 
 
+def c13_order_script(rng, sizes, kind, rule, heur, perms):
+    """order sweep: few edges, many target orders, each reached from the identity
+    order and followed by the way back; only the order and the held functions are
+    observed (cheap lines), so that schedules which need a particular inversion
+    pattern among >= 5 variables are exercised"""
+    S = Script()
+    d = S.dom(sizes)
+    f = S.forest(d, kind, rule, heur=heur)
+    npts = points_of(sizes, False)
+    pal = COPY_PAL.get(kind)
+    es = [S.new(f) for _ in range(3)]
+    for e in es[:2]:
+        table_coll(S, e, f, kind, rand_table(rng, kind, npts, pal, p_default=rng.choice([0.3, 0.6])), sizes)
+    op = 'UNION' if KINDS[kind][1] == 'B' else ('MINIMUM' if KINDS[kind][2] == 'EP' else 'MAXIMUM')
+    S.add('bin %s %d %d %d' % (op, es[2], es[0], es[1]))
+    S.add('obs')
+    ident = list(range(1, len(sizes) + 1))
+    for p in perms:
+        S.add('reorder %d %s' % (f, ' '.join(map(str, p))))
+        S.add('obs')
+        S.add('reorder %d %s' % (f, ' '.join(map(str, ident))))
+        S.add('obs')
+    S.add('snap %d' % f)
+    return S.text()
+
+
 @plan('C13')
 def plan_c13(tier, seed, rng):
     import itertools
@@ -1862,13 +1968,27 @@ def plan_c13(tier, seed, rng):
                 scripts.append(('o%03d_%s_%s%s' % (n, kind, heur, swap),
                                 c13_script(rng, sizes, kind, rng.choice(rules), heur, swap, perms)))
                 n += 1
+    # order sweeps over five variables
+    all5 = list(itertools.permutations(range(1, 6)))
+    for heur in HEURS:
+        if tier != 'thorough' and heur not in ('LM', 'LC') and rng.random() < 0.6:
+            continue
+        for rule in ['F', 'Q']:
+            sizes = [2] * 5 if rng.random() < 0.6 else rng.choice([[2, 3, 2, 2, 2], [2, 2, 2, 3, 2], [3, 2, 2, 2, 2]])
+            if tier == 'thorough':
+                perms = list(all5)
+                rng.shuffle(perms)
+            else:
+                perms = rng.sample(all5, 40) + [(5, 4, 3, 2, 1)]
+            scripts.append(('s%03d_%s%s' % (n, heur, rule), c13_order_script(rng, sizes, rng.choice(['mti_s', 'mtb_s', 'evp_s']), rule, heur, perms)))
+            n += 1
     return dict(
         scripts=scripts, validators=[API, STORE], tags={'C13', 'HELD', 'C02', 'C11', 'C03'}, timeout=25, asan=True,
         rule='per forest kind (MT boolean/integer/real sets, EV+ sets, MT boolean/integer relations) x scheduling heuristic (all eight) x swap method '
              '(relations: variable swap and level swap): several edges sharing nodes plus a warm compute table, then a sequence of target permutations '
              '(all 24 / 6 for small K in thorough); after each reordering every held edge is evaluated at every point and compared with PermuteFn of the '
              'specification, a second forest over the same domain must be unchanged, the node snapshot must satisfy the reduction rule and exact counts, '
-             'and further operations must agree with the specification; non-trivial = non-constant function',
+             'and further operations must agree with the specification; order sweeps over five variables (quick: 41 targets, thorough: all 120, each reached from and followed by the identity order) per heuristic and rule; non-trivial = non-constant function',
         exhaustive=False,
     )
 
@@ -2025,6 +2145,9 @@ def c16_script(rng):
     # a value that does not fit a terminal
     cases += ['const %d %d 3000000000' % (E['is'][0], F['is']),
               'const %d %d -3000000000' % (E['is'][1], F['is'])]
+    # ... and the boundary of the documented range [-2^30, 2^30 - 1]: just outside is refused, just inside is accepted
+    cases += ['const %d %d %d' % (E['is'][rng.randrange(2)], F['is'], v)
+              for v in (1073741825, 2147483647, -2147483648, -1073741825, 1073741823, -1073741823)]
     # dereferencing an exhausted iterator
     cases += ['iter %d deref' % E['bs'][0], 'iter %d deref' % E['ps'][0], 'iter %d deref' % E['br'][0]]
     # library state misuse
@@ -2057,6 +2180,31 @@ def c16_script(rng):
         r2 = S.new(F['ps'])
         S.add('bin MINUS %d %d %d' % (r2, E['ps'][0], E['ps'][1]))
         check()
+    # a product that does not fit a terminal, only in the last branch
+    for rep in range(3):
+        A = [rng.choice([1, 2, 3, 5, -7]) for _ in range(np_)]
+        B = [rng.choice([1, 2, 3]) for _ in range(np_)]
+        A[np_ - 1], B[np_ - 1] = rng.choice([(32768, 32768), (65536, 16384), (-32768, 32769), (46341, 46341), (1073741823, 2)])
+        if rep == 2:        # the control: the largest products that still fit
+            A[np_ - 1], B[np_ - 1] = rng.choice([(32768, -32768), (32767, 32768)])
+        table_coll(S, E['is'][0], F['is'], 'mti_s', A, [2, 3, 2])
+        table_coll(S, E['is'][1], F['is'], 'mti_s', B, [2, 3, 2])
+        r = S.new(F['is'])
+        S.add('bin MULTIPLY %d %d %d' % (r, E['is'][0], E['is'][1]))
+        check()
+    # EV+ division: the numerator is +infinity on a whole slab, the divisor is not
+    # constant there and is 0 (or +infinity) at one point inside it
+    for rep in range(4):
+        slab = rng.randrange(2)                    # value of the top variable
+        P1 = [INF if set_digits(r_, [2, 3, 2])[2] == slab else rng.choice([1, 2, 5]) for r_ in range(np_)]
+        P2 = [rng.choice([1, 2, 3]) for _ in range(np_)]
+        inside = [r_ for r_ in range(np_) if set_digits(r_, [2, 3, 2])[2] == slab]
+        P2[rng.choice(inside)] = 0 if rep % 2 == 0 else INF
+        table_coll(S, E['ps'][0], F['ps'], 'evp_s', P1, [2, 3, 2])
+        table_coll(S, E['ps'][1], F['ps'], 'evp_s', P2, [2, 3, 2])
+        r3 = S.new(F['ps'])
+        S.add('bin %s %d %d %d' % (rng.choice(['DIVIDE', 'DIVIDE', 'MODULO']), r3, E['ps'][0], E['ps'][1]))
+        check()
     # misuse of a detached edge
     det = S.new(-1)
     cases2 = ['bin UNION %d %d %d' % (E['bs'][0], det, E['bs'][1]),
@@ -2076,13 +2224,13 @@ def c16_script(rng):
 def plan_c16(tier, seed, rng):
     scripts = [('m%03d' % i, c16_script(rng)) for i in range(12 if tier == 'thorough' else 4)]
     return dict(
-        scripts=scripts, validators=[API, STORE], tags={'C16', 'HELD', 'C02'}, asan=True,
+        scripts=scripts, validators=[API, STORE], tags={'C16', 'HELD', 'C02', 'C03', 'C04', 'C05', 'C10', 'C11'}, asan=True,
         mc=[('MddApiMC.tla', 'ApiLifeMC.cfg', {})],
         rule='model: ErrorAtomic (an error step changes nothing but the error code) on the bounded API state machine; implementation: every misuse in the '
              'catalogue - operands or result from another domain (same shape, other shape), set versus relation, range / labeling mismatch, a construction '
-             'into an edge attached to another forest, integers that do not fit a terminal, dereferencing an exhausted iterator, double initialisation and '
-             'double clean-up, operations, queries and evaluation on a detached edge, and errors met deep in a recursion (a zero divisor or infinite '
-             'subtrahend only in the last branch of a three-level function) - in seeded random order with valid operations in between; after every provoked '
+             'into an edge attached to another forest, integers that do not fit a terminal (far outside, and both sides of the boundary of [-2^30, 2^30-1]), dereferencing an exhausted iterator, double initialisation and '
+             'double clean-up, operations, queries and evaluation on a detached edge, and errors met deep in a recursion (a zero divisor, infinite '
+             'subtrahend or overflowing product only in the last branch of a three-level function; an EV+ divisor that is 0 or infinite at one point inside a slab where the numerator is infinite) - in seeded random order with valid operations in between; after every provoked '
              'error all held edges are re-evaluated (must be unchanged) and three forests are snapshot (must satisfy the reduction rule and exact counts); '
              'thorough repeats the executions under AddressSanitizer; non-trivial = an error outcome or a non-constant result',
         exhaustive=False,
